@@ -60,7 +60,8 @@ Fixpoint drain (fuel : nat) (t : transport) : list bytes * transport :=
     match wait t with
     | None => ([], t)
     | Some n =>
-        let '(chunk, t') := recv t n in
+        (* _recv(max_bytes): recv_into(self._buffer, max_bytes) never returns more than the 64 KiB buffer holds *)
+        let '(chunk, t') := recv t (N.min n BUFFER_SIZE) in
         match chunk with
         | [] => ([], t')          (* cannot happen for non-empty records *)
         | _ => let '(rest, t'') := drain f t' in (chunk :: rest, t'')
